@@ -76,9 +76,12 @@ type handler1 struct {
 	sleepDuration     uint16
 	sleepPingerCancel context.CancelFunc
 	sleepPingerTimer  *time.Timer
-	// Number of PINGREQs sent to the MQTT broker on behalf of an active
-	// client which did not ask for them (their PINGRESPs are not forwarded).
-	gwPings int32
+	// The PINGREQs sent to the MQTT broker and not answered yet, in the order
+	// they were sent (the broker answers them in that order): true for a
+	// PINGREQ of the client (its PINGRESP is forwarded to the client), false
+	// for a PINGREQ the gateway sent on its own.
+	pingMutex   sync.Mutex
+	pingOrigins []bool
 }
 
 const (
@@ -479,15 +482,22 @@ func (h *handler1) handleMqtt(ctx context.Context, pkt mqPkts.ControlPacket) err
 
 	// Client PING transaction (keepalive).
 	case *mqPkts.PingrespPacket:
-		// Response to sleepPinger pings => do not pass to the sleeping client.
+		// Whose PINGREQ is answered? (An unsolicited PINGRESP is passed on.)
+		forClient := true
+		h.pingMutex.Lock()
+		if len(h.pingOrigins) > 0 {
+			forClient = h.pingOrigins[0]
+			h.pingOrigins = h.pingOrigins[1:]
+		}
+		h.pingMutex.Unlock()
+		// Response to a gateway-originated ping.
+		if !forClient {
+			return nil
+		}
+		// Do not pass to a client which has fallen asleep meanwhile.
 		if h.state.Get() != util.StateActive {
 			return nil
 		}
-		// Response to a gateway-originated ping.
-		if atomic.AddInt32(&h.gwPings, -1) >= 0 {
-			return nil
-		}
-		atomic.AddInt32(&h.gwPings, 1)
 		return h.snSend(snPkts1.NewPingresp())
 
 	// MQTT broker PUBLISH QOS 0,1,2 transaction.
@@ -610,8 +620,7 @@ func (h *handler1) handleConnect(ctx context.Context, snConnect *snPkts1.Connect
 	if state := h.state.Get(); state == util.StateAwake || state == util.StateAsleep {
 		// The client takes over the MQTT keepalive again.
 		h.stopSleepPinger()
-		atomic.AddInt32(&h.gwPings, 1)
-		if err := h.mqttPing(); err != nil {
+		if err := h.mqttPing(false); err != nil {
 			return err
 		}
 		h.snSendMutex.Lock()
@@ -939,7 +948,7 @@ func (h *handler1) handleMqttSn(ctx context.Context, pkt snPkts.Packet) error {
 		if h.state.Get() == util.StateAsleep {
 			// The client is alive => the MQTT broker must consider it alive for
 			// (at least) another sleep duration.
-			if err := h.mqttPing(); err != nil {
+			if err := h.mqttPing(false); err != nil {
 				return err
 			}
 			h.restartSleepPinger(ctx)
@@ -956,8 +965,7 @@ func (h *handler1) handleMqttSn(ctx context.Context, pkt snPkts.Packet) error {
 			h.setState(util.StateAsleep)
 			return err
 		} else {
-			mqPkt := mqPkts.NewControlPacket(mqPkts.Pingreq).(*mqPkts.PingreqPacket)
-			return h.mqttSend(mqPkt)
+			return h.mqttPing(true)
 		}
 
 	// Client DISCONNECT transaction.
@@ -975,7 +983,7 @@ func (h *handler1) handleMqttSn(ctx context.Context, pkt snPkts.Packet) error {
 			h.log.Debug("Going to sleep for %vs", snPkt.Duration)
 			// We must ensure MQTT broker considers client alive during sleep period.
 			h.sleepDuration = snPkt.Duration
-			if err := h.mqttPing(); err != nil {
+			if err := h.mqttPing(false); err != nil {
 				return err
 			}
 			h.restartSleepPinger(ctx)
@@ -1037,9 +1045,18 @@ func (h *handler1) handleMqttSn(ctx context.Context, pkt snPkts.Packet) error {
 	}
 }
 
-func (h *handler1) mqttPing() error {
+// Sends a PINGREQ to the MQTT broker: for the client (forClient, the
+// PINGRESP will be forwarded to it) or on the gateway's own account.
+func (h *handler1) mqttPing(forClient bool) error {
 	p := mqPkts.NewControlPacket(mqPkts.Pingreq).(*mqPkts.PingreqPacket)
-	return h.mqttSend(p)
+	// The order of pingOrigins must be the order on the wire.
+	h.pingMutex.Lock()
+	defer h.pingMutex.Unlock()
+	if err := h.mqttSend(p); err != nil {
+		return err
+	}
+	h.pingOrigins = append(h.pingOrigins, forClient)
+	return nil
 }
 
 // (Re)starts the sleep pinger when the sleeping client shows it is alive
@@ -1075,8 +1092,7 @@ func (h *handler1) startSleepPinger(ctx context.Context) context.CancelFunc {
 		for {
 			select {
 			case <-time.After(time.Duration(h.keepAlive) * time.Second):
-				p := mqPkts.NewControlPacket(mqPkts.Pingreq).(*mqPkts.PingreqPacket)
-				if err := h.mqttSend(p); err != nil {
+				if err := h.mqttPing(false); err != nil {
 					return err
 				}
 			case <-ctx2.Done():
